@@ -1,6 +1,7 @@
 import H264.SeiPayloadsFwd
 import H264.C20
 import H264.Tables2
+import H264.TblProof
 /-! # C11 — SEI payload parsers (buffering period, pic timing, T.35) recover encoded values
 
 Models: `SeiPayload.readPicTiming s`, `readBufferingPeriod spsById`, `readT35` mirror `PicTiming::read`,
@@ -79,5 +80,10 @@ theorem code_pic_struct_table : Generated.picStruct.length = 16 ∧
       (Generated.picStruct.getD p.val (0,0,0)).2.2 = SeiPayload.numClockTs p.val) ∧
     (∀ i j : Fin 16, (Generated.picStruct.getD i.val (0,0,0)).2.1 = (Generated.picStruct.getD j.val (0,0,0)).2.1 → i = j) :=
   Tables2.picStruct_table
+
+/-- model `readPicTiming` = real `PicTiming::read` on the 16 swept pic_struct payloads (accepted, value, number of
+clock-timestamp slots), by proof -/
+theorem model_parser_reproduces_code_on_pic_struct_sweep :
+    ∀ p : Fin 16, TblProof.picStructCode p.val = Generated.picStruct.getD p.val (9, 9, 9) := TblProof.picStruct_model_eq_code
 
 end C11
